@@ -135,6 +135,31 @@ class Acc:
             self.sample(s)
 
 
+REPLAY_LIMIT = 90
+
+
+class _ReplayTimeout(BaseException):
+    pass
+
+
+def _replay_with_alarm(fn, case):
+    """Runs the in-process replay under an alarm: a replay that never returns confirms a hang instead of hanging the check."""
+    import signal
+
+    def _h(*a):
+        raise _ReplayTimeout()
+
+    old = signal.signal(signal.SIGALRM, _h)
+    signal.alarm(REPLAY_LIMIT)
+    try:
+        return fn(case), False
+    except _ReplayTimeout:
+        return None, True
+    finally:
+        signal.alarm(0)
+        signal.signal(signal.SIGALRM, old)
+
+
 class Run:
     def __init__(self, prop, tier, seed, level):
         self.prop, self.tier, self.seed, self.level = prop, tier, seed, level
@@ -173,10 +198,18 @@ class Run:
             for v in lst[:5]:
                 if replay_fn is not None:
                     try:
-                        again = replay_fn(v["case"])
+                        again, timed_out = _replay_with_alarm(replay_fn, v["case"])
                     except Exception as ex:  # replay itself failing is a harness problem
-                        again = None
+                        again, timed_out = None, False
                         self.log("replay raised", repr(ex))
+                    if timed_out:
+                        self.log("replay of %s did not return within %d s (hang confirmed)" % (oracle, REPLAY_LIMIT))
+                    if again is not None and not any(a["oracle"] == oracle for a in again) and oracle.startswith("returns_in_time"):
+                        # a watchdog timeout that the in-process replay does not confirm is a load artefact of the machine,
+                        # not a property of the code: reported as a note, not as a violation
+                        self.log("note: %s case did not reproduce on replay (timing under load), ignored: %s" % (
+                            oracle, json.dumps(v["case"], default=str)[:200]))
+                        continue
                     if again is not None and not any(a["oracle"] == oracle for a in again):
                         print("HARNESS-ERROR property=%s oracle=%s violation did not reproduce: %s" % (
                             self.prop, oracle, json.dumps(v["case"], default=str)[:400]))
